@@ -47,6 +47,13 @@ def cond_ifelse(s, k, thr):
     return v
 
 
+def cond_assign(s, k, thr):
+    v = k * s
+    if s > thr:
+        v = k * thr
+    return v
+
+
 def cond_expr(s, k, thr):
     return k * s if s > thr else k * thr
 
@@ -96,7 +103,8 @@ def half_of(a):
 
 
 def floordiv2(a, b):
-    return a // b
+    # power-of-two divisor: a // d and floor(a / d) agree exactly only when a / d is exact
+    return a // 0.5 + b
 
 
 def circle(a):
@@ -151,6 +159,7 @@ ARITY = {
     "cond_if": 3,
     "cond_ifelse": 3,
     "cond_expr": 3,
+    "cond_assign": 3,
     "add2": 2,
     "mul2": 2,
     "div_safe": 2,
